@@ -362,7 +362,7 @@ private:
                                 {
                                     first = false;
                                 }
-                                sink_.append(it->second.data(), it->second.length());
+                                write_header_name(it->second);
                             }
                         }
                         sink_.append(line_delimiter_.data(), line_delimiter_.length());
@@ -397,7 +397,7 @@ private:
                             {
                                 sink_.push_back(field_delimiter_);
                             }
-                            sink_.append(it->second.data(), it->second.length());
+                            write_header_name(it->second);
                             first = false;
                         }
                     }
@@ -642,7 +642,7 @@ private:
                                 {
                                     sink_.push_back(field_delimiter_);
                                 }
-                                sink_.append(it->second.data(), it->second.length());
+                                write_header_name(it->second);
                                 ++col;
                             }
                         }
@@ -704,7 +704,7 @@ private:
                                 {
                                     sink_.push_back(field_delimiter_);
                                 }
-                                sink_.append(it->second.data(), it->second.length());
+                                write_header_name(it->second);
                                 ++col;
                             }
                         }
@@ -1305,6 +1305,27 @@ private:
         }
         ++stack_.back().count_;
         JSONCONS_VISITOR_RETURN;
+    }
+
+    // A column name that contains the field delimiter, the quote character or a line break is quoted
+    void write_header_name(const string_type& name)
+    {
+        const CharT* s = name.data();
+        const std::size_t length = name.length();
+        if (quote_style_ != quote_style_kind::none &&
+            (std::char_traits<CharT>::find(s, length, field_delimiter_) != nullptr || std::char_traits<CharT>::find(s, length, quote_char_) != nullptr ||
+             std::char_traits<CharT>::find(s, length, '\n') != nullptr || std::char_traits<CharT>::find(s, length, '\r') != nullptr))
+        {
+            sink_.push_back(quote_char_);
+            string_type str(alloc_);
+            escape_string(s, length, quote_char_, quote_escape_char_, str);
+            sink_.append(str.data(), str.length());
+            sink_.push_back(quote_char_);
+        }
+        else
+        {
+            sink_.append(s, length);
+        }
     }
 
     void write_string_value(const string_view_type& value, string_type& str)
